@@ -395,7 +395,10 @@ class H:
         # `where`: innermost urwid frame the exception came from ("file.py:function") - two different defects can
         # raise the same type and message (e.g. "cannot unpack non-iterable NoneType object"), and a known finding
         # must be able to tell them apart
-        self.rec(check, False, f"{what} raised {_exc(e)}", sig or _sigmsg(e), zero_rows=self.zero_rows(), exc=type(e).__name__, where=_where(e))
+        # The signature carries the discriminators too (raising site, presence of a zero-row container): only one
+        # representative per signature is reported, so two causes must never share a signature.
+        where, zero = _where(e), self.zero_rows()
+        self.rec(check, False, f"{what} raised {_exc(e)}", f"{sig or _sigmsg(e)}@{where}{'+zero-rows' if zero else ''}", zero_rows=zero, exc=type(e).__name__, where=where)
         raise Stop from e
 
     # ------------------------------------------------------------------ invariants
@@ -728,7 +731,7 @@ class H:
             self.rec("invalid-position", False, f"{lab} (valid positions {valid_focus_positions(n.kind, len(n.kids or ()), tuple(cm))}) was accepted", f"invalid-accepted-{n.kind}", valid=False)
             raise Stop
         if not isinstance(err, IndexError):
-            self.rec("invalid-position", False, f"{lab} raised {_exc(err)} instead of IndexError", f"invalid-raised-{type(err).__name__}-{n.kind}-{type(val).__name__}", valid=False,
+            self.rec("invalid-position", False, f"{lab} raised {_exc(err)} instead of IndexError", f"invalid-raised-{type(err).__name__}-{n.kind}-{type(val).__name__}@{_where(err)}", valid=False,
                      exc=type(err).__name__, kind=n.kind, value_type=type(val).__name__, where=_where(err))
             raise Stop
         self.rec("invalid-position", after == before, f"{lab} raised IndexError but focus state changed", "invalid-changed-state", valid=False)
@@ -777,7 +780,7 @@ class H:
             self.rec("focus-path-roundtrip", False, f"invalid {lab} was accepted", "invalid-path-accepted", valid=False)
             raise Stop
         if not isinstance(err, IndexError):
-            self.rec("focus-path-roundtrip", False, f"invalid {lab} raised {_exc(err)} instead of IndexError", f"invalid-path-raised-{type(err).__name__}", valid=False,
+            self.rec("focus-path-roundtrip", False, f"invalid {lab} raised {_exc(err)} instead of IndexError", f"invalid-path-raised-{type(err).__name__}-{self.first_invalid_type(path)}@{_where(err)}", valid=False,
                      exc=type(err).__name__, value_type=self.first_invalid_type(path), where=_where(err))
             raise Stop
         self.rec("focus-path-roundtrip", True, valid=False)
@@ -945,11 +948,18 @@ class H:
             finally:
                 CanvasCache.clear()
             end2 = self.chain()[-1]
+            # which container's focus did the render change (first level at which the paths differ), and does it sit
+            # below a ListBox?  Part of the signature: one representative is kept per signature.
+            d = next((i for i, (x, y) in enumerate(zip(path, got2)) if x != y), min(len(path), len(got2)))
+            changed_kind = path_kinds[d] if d < len(path_kinds) else "leaf"
+            below_listbox = "ListBox" in path_kinds[:d]
             self.rec(
                 "focus-path-roundtrip",
                 got2 == path and end2 is leaf,
                 f"path {path!r} read after step {i0} (settled by a render) and written back after step {len(self.ops_done)}: after the next render get_focus_path() = {got2!r}, focus leaf {end2.name or end2.kind}",
-                "roundtrip-after-render",
+                f"roundtrip-after-render-{changed_kind}-{'below-ListBox' if below_listbox else 'no-ListBox-above'}",
+                changed_kind=changed_kind,
+                below_listbox=below_listbox,
                 nontrivial=bool(path),
                 read_after_step=i0,
                 path_kinds=path_kinds,
